@@ -109,8 +109,12 @@ class Build:
         if kind == 'cmp':
             d = [e.char('d%d_%d' % (i, k), 48, 57) for k in range(3)]
             rel = e.char('rel%d' % i, 60, 62)
-            self.pre += ['\\def\\na%s{' % 'abcdefgh'[i], d[0], d[1], '}', '\\def\\nb%s{' % 'abcdefgh'[i], d[2], '}']
+            sg = e.char('sg%d' % i, 43, 45)              # the left operand is a macro-produced number with a sign
+            e.assume(e.one_of(sg, '+-'))
+            self.pre += ['\\def\\na%s{' % 'abcdefgh'[i], sg, d[0], d[1], '}', '\\def\\nb%s{' % 'abcdefgh'[i], d[2], '}']
             a = (api.ord_(d[0]) - 48) * 10 + (api.ord_(d[1]) - 48)
+            if api.eq(sg, '-'):
+                a = -a
             b = api.ord_(d[2]) - 48
             if api.eq(rel, '<'):
                 v = a < b
